@@ -5,6 +5,7 @@
 #   listing order   os.listdir / os.scandir results are shuffled
 #   randomness      random is reseeded
 #   pid             os.getpid returns a seed-derived number
+#   host / user     socket.gethostname, platform.node, os.uname().nodename, getpass.getuser, os.getlogin
 import os
 
 _seed = os.environ.get('DETCOMPILE_SEED')
@@ -77,4 +78,30 @@ if _seed is not None:
     os.scandir = lambda path='.': _Scan(path)
     _pid = _rng.randint(2, 4000000)
     os.getpid = lambda: _pid
+    # who / where: host name and user name
+    _host = 'host%d' % _rng.randint(0, 9999)
+    _user = 'user%d' % _rng.randint(0, 9999)
+    try:
+        import socket as _socket
+        _socket.gethostname = lambda: _host
+        _socket.getfqdn = lambda name='': _host + '.example'
+    except Exception:
+        pass
+    try:
+        import platform as _platform
+        _platform.node = lambda: _host
+    except Exception:
+        pass
+    try:
+        import getpass as _getpass
+        _getpass.getuser = lambda: _user
+    except Exception:
+        pass
+    os.getlogin = lambda: _user
+    _real_uname = os.uname
+
+    def _uname():
+        u = _real_uname()
+        return os.uname_result((u.sysname, _host, u.release, u.version, u.machine))
+    os.uname = _uname
     _random.seed(_rng.getrandbits(64))
